@@ -64,7 +64,7 @@ REACH = ['pywbem._cim_xml:_pcdata_nodes', 'pywbem._cim_types:atomic_to_cim_xml',
 
 def plan(tier):
     if tier == 'quick':
-        return dict(cases=6000, time_s=60, case_cpu_s=30)
+        return dict(cases=30000, time_s=75, case_cpu_s=30)
     return dict(cases=200000, time_s=420, case_cpu_s=60)
 
 
@@ -197,7 +197,7 @@ def gen(rng):
 
 
 def run_case(ctx, i, rng):
-    cdata = rng.random() < 0.25
+    cdata = rng.random() < 0.35
     kind, obj = gen(rng)
     ctx.evaluated()
     ctx.cls('%s%s' % (kind, '/cdata' if cdata else ''))
